@@ -108,6 +108,7 @@ type VerifyResult struct {
 	UsedContracts []string
 	Models        []string
 	Covers        []*Obligation
+	AnteCovers    []*Obligation
 	Trusted       bool
 }
 
@@ -216,6 +217,7 @@ func (x *Exec) Verify() *VerifyResult {
 	res.UsedContracts = sortedKeys(x.usedContracts)
 	res.Models = sortedKeys(x.builtinModels)
 	res.Covers = x.covers
+	res.AnteCovers = x.anteCovers
 	return res
 }
 
@@ -252,6 +254,14 @@ func (x *Exec) atReturn(fr *Frame, c *Contract, entry, st *State, params, result
 			o := x.addObl(st, fmt.Sprintf("%s/ensures%s(%s)", x.key, cl.LabelString(), cl.Text), "ensures", g, token.NoPos, cl.Labels)
 			o.Clause = cl
 			o.Outputs = outs
+			// vacuity probe: the antecedent of an implication must be satisfiable at some return site
+			if cl.Expr.Op == "bin" && cl.Expr.Name == "==>" {
+				eca := x.evalCtxFor(c, st, entry, nil, params, sig, results, false)
+				ante := eca.Bool(cl.Expr.Args[0])
+				cv := &Obligation{Name: o.Name, Kind: "cover-ante", Func: x.key, Goal: tb.False(), x: x}
+				cv.Asserts = append(append([]*Term(nil), st.pc...), ante)
+				x.anteCovers = append(x.anteCovers, cv)
+			}
 			o.Detail = fmt.Sprintf("return#%d", x.returns)
 			// later clauses may use earlier ones (each is proved separately, so the conjunction holds):
 			// assume this clause in hypothesis form for the clauses that follow
@@ -296,6 +306,11 @@ func (x *Exec) atReturn(fr *Frame, c *Contract, entry, st *State, params, result
 			labels = append(labels, m.Labels...)
 			for _, me := range m.Exprs {
 				me := me
+				if me.Op == "ident" {
+					if _, isGhost := x.ghostDecl[me.Name]; isGhost {
+						continue
+					}
+				}
 				if err := x.guard("modifies", func() {
 					v := ecm.Eval(me)
 					switch lv := v.V.(type) {
@@ -324,6 +339,34 @@ func (x *Exec) atReturn(fr *Frame, c *Contract, entry, st *State, params, result
 			}
 			ob := x.addObl(st, fmt.Sprintf("%s/frame(%s unchanged)", x.key, o.Name), "frame", g, token.NoPos, labels)
 			ob.Outputs = outs
+		}
+	}
+	// ghost frame: ghost variables not listed in a modifies clause keep their entry values
+	{
+		listed := map[string]bool{}
+		for _, m := range mods {
+			for _, me := range m.Exprs {
+				if me.Op == "ident" {
+					listed[me.Name] = true
+				}
+			}
+		}
+		for _, gs := range c.ByKind("ghostset") {
+			listed[gs.Exprs[0].Name] = true
+		}
+		for name, v0 := range entry.ghost {
+			if listed[name] || strings.HasPrefix(name, "sb:") {
+				continue
+			}
+			if _, declared := x.ghostDecl[name]; !declared {
+				continue
+			}
+			if v1, ok := st.ghost[name]; ok && v1 != v0 {
+				g := x.svalEq(v0, v1)
+				if !g.IsTrue() {
+					x.addObl(st, fmt.Sprintf("%s/frame(ghost %s may change but is not listed in a modifies clause)", x.key, name), "frame", g, token.NoPos, nil)
+				}
+			}
 		}
 	}
 	// fresh results: result slices/pointers not declared as aliases must be freshly allocated
